@@ -1,0 +1,65 @@
+//! WAL facade: write sessions, read a segment back, repair a segment.
+
+use std::fs::File;
+use std::path::Path;
+
+use crate::wal::manager::Wal;
+use crate::wal::reader::Reader;
+use crate::wal::{CompressionType, Error as WalError, Options, BLOCK_SIZE, HEADER_SIZE};
+
+/// (BLOCK_SIZE, HEADER_SIZE) as compiled.
+pub fn params() -> (usize, usize) {
+	(BLOCK_SIZE, HEADER_SIZE)
+}
+
+/// How reading a segment ended.
+#[derive(Debug, Clone, PartialEq, Eq)]
+pub enum Tail {
+	/// Clean end of log.
+	Eof,
+	/// Corruption report: (message, offset).
+	Corrupt(String, u64),
+	/// Any other error.
+	Other(String),
+}
+
+/// One session: open the WAL in `dir` (appends to the highest existing
+/// segment), append every record, close. Returns per-record results.
+pub fn write_session(dir: &Path, records: &[Vec<u8>], lz4: bool) -> Result<Vec<bool>, String> {
+	let mut opts = Options::default();
+	if lz4 {
+		opts = opts.with_compression(CompressionType::Lz4);
+	}
+	let mut wal = Wal::open(dir, opts).map_err(|e| e.to_string())?;
+	let mut out = Vec::with_capacity(records.len());
+	for r in records {
+		out.push(wal.append(r).is_ok());
+	}
+	wal.close().map_err(|e| e.to_string())?;
+	Ok(out)
+}
+
+/// Reads every record of a segment file; returns the delivered records with
+/// the offset the reader reports after each, and how the read ended.
+pub fn read_segment(path: &Path) -> Result<(Vec<(Vec<u8>, u64)>, Tail), String> {
+	let file = File::open(path).map_err(|e| e.to_string())?;
+	let mut reader = Reader::new(file);
+	let mut out = Vec::new();
+	loop {
+		match reader.read() {
+			Ok((data, off)) => out.push((data.to_vec(), off)),
+			Err(WalError::Corruption(c)) => {
+				return Ok((out, Tail::Corrupt(c.to_string(), c.offset)));
+			}
+			Err(WalError::IO(e)) if e.kind() == std::io::ErrorKind::UnexpectedEof => {
+				return Ok((out, Tail::Eof));
+			}
+			Err(e) => return Ok((out, Tail::Other(e.to_string()))),
+		}
+	}
+}
+
+/// Runs segment repair as recovery does.
+pub fn repair(dir: &Path, segment_id: usize) -> Result<(), String> {
+	crate::wal::recovery::repair_corrupted_wal_segment(dir, segment_id).map_err(|e| e.to_string())
+}
